@@ -12,7 +12,7 @@ sys.path.insert(0, VERIF)
 
 
 # checks that have been run end-to-end on the unchanged tree by the integrator and are claimed
-INTEGRATED = {"C01", "C02", "C11", "C17", "C08", "C09", "C10", "C03", "C04", "C05", "C06", "C07", "C12", "C15", "C16", "C18", "C19", "C20"}
+INTEGRATED = {"C01", "C13", "C14", "C02", "C11", "C17", "C08", "C09", "C10", "C03", "C04", "C05", "C06", "C07", "C12", "C15", "C16", "C18", "C19", "C20"}
 
 
 def collect():
